@@ -64,13 +64,13 @@ Inductive abeh := Consumes (qr aqr : bool) | Always | Never.
 
 Definition alias_behaviour (t : term) : abeh :=
   match t with
-  | TField _ _ _ | TArith _ _ _ _ | TCase _ _ _ | TFunc _ _ _ _ => Consumes true true
-  | TBasic _ _ _ _ => Consumes false true      (* quote_char is a named parameter of BasicCriterion.get_sql *)
-  | TSub _ _ _ => Consumes true false          (* a sub-query replaces alias_quote_char by its own class constant *)
+  | TField _ _ _ | TArith _ _ _ _ | TCase _ _ _ | TFunc _ _ _ _
+  | TBasic _ _ _ _ | TCplx _ _ _ _ => Consumes true true      (* comparison: quoted since 97eddd6; AND/OR: rendered since 55bfddf *)
+  | TSub _ _ _ => Consumes true false          (* a sub-query alias follows query_alias_quote_char, not alias_quote_char *)
   | TValS _ _ | TValI _ _ | TValB _ _ _ | TValNone _ | TValRaw _ _ | TLit _ _
   | TIn _ _ _ _ | TBetween _ _ _ _ | TBitAnd _ _ _ | TIsNull _ _ | TNotNull _ _ | TNot _ _ | TAll _ _
   | TTuple _ _ | TArray _ _ => Always
-  | TCplx _ _ _ _ | TNeg _ | TStar _ | TParam _ | TEmpty => Never
+  | TNeg _ | TStar _ | TParam _ | TEmpty => Never          (* no alias slot in the term model *)
   end.
 
 Definition consumes (t : term) : bool := match alias_behaviour t with Consumes _ _ => true | _ => false end.
@@ -82,7 +82,7 @@ Definition reach_aq (c : ctx) (t : term) : option string :=
   match alias_behaviour t with Consumes _ false => None | _ => aq c end.
 
 (* [quiet t]: no node of [t] that carries an alias is an Always constructor (aliases sit only on constructors that
-   consume with_alias, or on ComplexCriterion which never renders one) *)
+   consume with_alias) *)
 Fixpoint quiet (t : term) : bool :=
   match t with
   | TField _ _ _ | TStar _ | TParam _ | TEmpty | TSub _ _ _ => true
@@ -209,8 +209,8 @@ Definition alias_ref (c : qclass) (a : string) : string := spec_alias_quote c ++
 Definition conv_quote (c : ctx) : string := ostr (or_ostr (aq c) (q c)).
 Definition class_ctx_ok (c : qclass) : bool :=
   forallb (fun j =>
-    (* select list and VALUES are rendered with with_alias, no other position is *)
-    wa (x_ctx_at c PSelect j) && negb (wa (x_ctx_at c POn j)) && negb (wa (x_ctx_at c PWhere j))
+    (* only the select list is rendered with with_alias (VALUES no longer is: f84cf61) *)
+    wa (x_ctx_at c PSelect j) && negb (wa (x_ctx_at c PValues j)) && negb (wa (x_ctx_at c POn j)) && negb (wa (x_ctx_at c PWhere j))
     && negb (wa (x_ctx_at c PGroup j)) && negb (wa (x_ctx_at c PHaving j)) && negb (wa (x_ctx_at c POrder j))
     (* the select list defines aliases by the class's convention, GROUP BY / ORDER BY reference them the same way *)
     && String.eqb (conv_quote (x_ctx_at c PSelect j)) (spec_alias_quote c)
@@ -339,14 +339,9 @@ Definition behaviour_spec (c : ctx) (t : term) : res string :=
   | Never => base
   end.
 
-(* constructors that render their children with with_alias=False (or through Function.get_function_sql) *)
-Definition shields (t : term) : bool :=
-  match t with
-  | TArith _ _ _ _ | TBasic _ _ _ _ | TCase _ _ _ | TFunc _ _ _ _ | TIsNull _ _ | TNotNull _ _
-  | TField _ _ _ | TStar _ | TValS _ _ | TValI _ _ | TValB _ _ _ | TValNone _ | TValRaw _ _ | TLit _ _ | TParam _
-  | TEmpty | TSub _ _ _ => true
-  | _ => false
-  end.
+(* since 39a4740 / 55bfddf EVERY constructor renders its operands with with_alias=False (or through
+   Function.get_function_sql): no constructor hands the flag down any more *)
+Definition shields (t : term) : bool := true.
 
 (* the fragment of the select list: a Consumes constructor whose alias comes out in the class's convention, over
    sub-terms none of which is an aliased Always constructor *)
